@@ -82,7 +82,9 @@ func TestWorker(t *testing.T) {
 	}
 
 	env := NewEnvFor(t, prop, mode)
+	// no GC inside a run (it perturbs goroutine order) unless memory gets tight
 	debug.SetGCPercent(-1)
+	debug.SetMemoryLimit(2 << 30)
 	for i := from; i < to; i++ {
 		fmt.Fprintf(w, "{\"begin\":%d}\n", i)
 		w.Flush()
